@@ -58,14 +58,21 @@ type c17Req struct {
 	body   int
 	reject string // plugin kind that must reject it ("" = none)
 	keyVal string // X-API-Key value when key is set ("" = the configured one)
+	method string // "" = POST
 }
 
 // requests on both sides of each rejecting plugin's decision, including near misses
-var c17Reqs = []c17Req{{"accepted", true, 4, "", ""}, {"no-api-key", false, 4, "custom-auth", ""}, {"oversized-body", true, 64, "size_limit", ""},
-	{"body-at-limit", true, 8, "", ""}, {"body-one-over-limit", true, 9, "size_limit", ""},
-	{"key-other-case", true, 4, "custom-auth", "SESAME"}, {"key-capitalised", true, 4, "custom-auth", "Sesame"},
-	{"key-prefix", true, 4, "custom-auth", "sesam"}, {"key-extended", true, 4, "custom-auth", "sesame1"},
-	{"key-in-list", true, 4, "custom-auth", "sesame, sesame"}, {"key-quoted", true, 4, "custom-auth", "\"sesame\""}}
+var c17Reqs = []c17Req{{"accepted", true, 4, "", "", ""}, {"no-api-key", false, 4, "custom-auth", "", ""}, {"oversized-body", true, 64, "size_limit", "", ""},
+	{"body-at-limit", true, 8, "", "", ""}, {"body-one-over-limit", true, 9, "size_limit", "", ""},
+	{"key-other-case", true, 4, "custom-auth", "SESAME", ""}, {"key-capitalised", true, 4, "custom-auth", "Sesame", ""},
+	{"key-prefix", true, 4, "custom-auth", "sesam", ""}, {"key-extended", true, 4, "custom-auth", "sesame1", ""},
+	{"key-in-list", true, 4, "custom-auth", "sesame, sesame", ""}, {"key-quoted", true, 4, "custom-auth", "\"sesame\"", ""},
+	// a rejection does not depend on the method: bodies on methods that usually carry none,
+	// missing credentials on read-only methods
+	{"oversized-body-GET", true, 64, "size_limit", "", "GET"}, {"oversized-body-PUT", true, 64, "size_limit", "", "PUT"},
+	{"oversized-body-DELETE", true, 9, "size_limit", "", "DELETE"}, {"oversized-body-OPTIONS", true, 64, "size_limit", "", "OPTIONS"},
+	{"oversized-body-PATCH", true, 9, "size_limit", "", "PATCH"}, {"body-at-limit-GET", true, 8, "", "", "GET"},
+	{"no-api-key-GET", false, 0, "custom-auth", "", "GET"}, {"no-api-key-HEAD", false, 0, "custom-auth", "", "HEAD"}, {"no-api-key-OPTIONS", false, 4, "custom-auth", "", "OPTIONS"}}
 
 func c17Order(r *vres.Report, maxLen int) {
 	start := time.Now()
@@ -104,7 +111,11 @@ func c17Order(r *vres.Report, maxLen int) {
 			for _, rq := range c17Reqs {
 				c17Trace = nil
 				baseHits = 0
-				req := httptest.NewRequest("POST", "http://x.test/p", bytes.NewReader(pattern(rq.body, 1)))
+				method := rq.method
+				if method == "" {
+					method = "POST"
+				}
+				req := httptest.NewRequest(method, "http://x.test/p", bytes.NewReader(pattern(rq.body, 1)))
 				if rq.key {
 					kv := rq.keyVal
 					if kv == "" {
@@ -165,7 +176,7 @@ func c17Order(r *vres.Report, maxLen int) {
 	}
 	rec()
 	r.AddScenario(vres.Scenario{Name: "chain-order-and-gating", Engine: "W", Evaluations: evals, Distinct: int64(outs.N()), Outcomes: outs.N(),
-		Rule:  "every sequence of built-in plugins up to the length, tracing probes at every position, eleven requests each (accepted; bodies at and one over the upload limit and far over it; no API key and six near-miss keys); distinct = (length, request, rejected, status) classes",
+		Rule:  "every sequence of built-in plugins up to the length, tracing probes at every position, twenty requests each (accepted; bodies at and one over the upload limit and far over it, on POST and on GET/PUT/DELETE/OPTIONS/PATCH; no API key on POST/GET/HEAD/OPTIONS and six near-miss keys); distinct = (length, request, rejected, status) classes",
 		Bound: fmt.Sprintf("all %d-ary sequences of length <= %d (this shard: %d chains)", len(c17Names), maxLen, chains), Exhaustive: true, Sample: sample,
 		Extra: map[string]interface{}{"wall_s": time.Since(start).Seconds()}})
 }
